@@ -145,7 +145,7 @@ impl Property for C19 {
         }
     }
     fn required_features(&self, _tier: Tier) -> Vec<String> {
-        ["diagnostics/parse", "diagnostics/analysis", "rendered/parse", "not-in-scope/checked", "feature/error-beyond-first-line", "feature/multibyte-before-error", "analysis-kind/InvalidSymbol", "analysis-kind/NotInScope"].iter().map(|s| s.to_string()).collect()
+        ["diagnostics/parse", "diagnostics/analysis", "rendered/parse", "not-in-scope/checked", "feature/error-beyond-first-line", "feature/multibyte-before-error", "analysis-kind/InvalidSymbol", "analysis-kind/NotInScope", "feature/invisible-prefix"].iter().map(|s| s.to_string()).collect()
     }
     fn supervisor_phase(&self, ctx: &mut Ctx, env: &Env) {
         if ctx.tier == Tier::Thorough {
@@ -177,6 +177,14 @@ impl Property for C19 {
                 let _ = mutate_semantic(&mut g.prog, rng);
                 (print_program(&g.prog, Layout::random(rng.next_u64())), "generated-semantic-mutant")
             }
+        };
+        // what an editor or a shell may put in front of the text: a byte-order mark, zero-width characters,
+        // blank lines - a tool that skips such a prefix has to keep its offsets relative to the text it reports
+        let src = if rng.chance(1, 8) {
+            ctx.count("feature/invisible-prefix");
+            format!("{}{}", *rng.pick(&["\u{feff}", "\u{feff}\n", "\u{200b}", "\r\n\r\n", "\u{2028}", "\u{a0}"]), src)
+        } else {
+            src
         };
         self.judge(ctx, &src, origin);
         if idx % 4999 == 0 {
